@@ -74,6 +74,7 @@ def run(ctx):
     stats = dict(cases=0, steps=0, raised=0, writer=0, open_raised=0)
     distinct = set()
     tmp = tempfile.mkdtemp(prefix="nptdms_verif_c20_")
+    own_streams = []
 
     def viol(what, **rp):
         violations.append(Violation(what, dict(kind="resource", **rp)))
@@ -86,9 +87,14 @@ def run(ctx):
                 continue
             base, base_idx = bytes.fromhex(e["file"]), bytes.fromhex(e["index"])
             for label, data, index in fault_variants(rnd, base, base_idx):
-                for via in ("path", "stream"):
+                for via in ("path", "stream", "rawstream"):
                     for with_index in ((False, True) if index is not None else (False,)):
                         for api in ("read", "read_metadata", "open"):
+                            # the caller's raw streams of the previous case are closed by the caller (us), never by the library
+                            for own in own_streams:
+                                if not own.closed:
+                                    own.close()
+                            own_streams = []
                             stats["cases"] += 1
                             distinct.add((label.split(" at ")[0], via, with_index, api))
                             p = os.path.join(tmp, "f%d.tdms" % (stats["cases"] % 3))
@@ -99,14 +105,16 @@ def run(ctx):
                             if with_index:
                                 open(p + "_index", "wb").write(index)
                             stream = None
-                            if via == "stream":
+                            if via in ("stream", "rawstream"):
                                 if with_index:
                                     continue      # an index beside a stream does not exist
-                                stream = io.BytesIO(data)
+                                # the caller's own stream: an in-memory one, or an unbuffered OS-level file object
+                                stream = io.BytesIO(data) if via == "stream" else io.FileIO(p, "rb")
+                                own_streams.append(stream)
                                 src, msrc = stream, ("ds" if data[:4] == b"TDSm" else "bs")
                             else:
                                 src, msrc = p, ("dp1" if with_index else "dp0")
-                            before = open_fds(tmp)
+                            before = open_fds(tmp)      # includes the caller's own raw stream, which must stay open
                             f, raised = None, None
                             try:
                                 f = getattr(T, api)(src)
@@ -172,11 +180,14 @@ def run(ctx):
                                 except Exception as ex:  # noqa
                                     viol("repeated close() raised %r" % ex, **ctxinfo)
                                 # with-block
-                                stream2 = io.BytesIO(data) if via == "stream" else None
+                                stream2 = (io.BytesIO(data) if via == "stream" else io.FileIO(p, "rb")) if via != "path" else None
+                                if stream2 is not None:
+                                    own_streams.append(stream2)
+                                before2 = open_fds(tmp)      # with the caller's second stream (if any) already open
                                 try:
                                     with T.open(stream2 if stream2 is not None else p) as g:
                                         inside = open_fds(tmp)
-                                    if open_fds(tmp) != before:
+                                    if open_fds(tmp) != before2:
                                         viol("after the with-block of TdmsFile.open descriptors remain open: %s" % open_fds(tmp), **ctxinfo)
                                     if stream2 is not None and stream2.closed:
                                         viol("the with-block closed the caller's stream", **ctxinfo)
